@@ -127,3 +127,21 @@ impl Arena {
     AV { cap: self.cap as int, data_offset: self.data_offset as int, ro: self.ro, freelist: self.freelist }
   }
 }
+
+impl Arena {
+  /// `(&mut *self.inner.as_ptr()).clear()`: Memory::clear, proved against this very contract in U_memory (C17);
+  /// Arena::data_offset / cap are the values cached from the Memory at construction
+  #[verifier::external_body]
+  pub fn memory_clear(&self, st: &mut St)
+    requires
+      old(st)@.writable, // [C09]
+      old(st)@.bytes.len() == self.cap as int, old(st)@.lo == self.data_offset as int, self.data_offset <= self.cap,
+    ensures
+      final(st).list == old(st).list,
+      final(st)@.allocated == self.data_offset as int, final(st)@.discarded == 0, final(st)@.min_seg == old(st)@.min_seg,
+      final(st)@.sentinel == enc(SENTINEL_SEGMENT_NODE_SIZE, SENTINEL_SEGMENT_NODE_OFFSET),
+      all_zero(final(st)@.bytes, self.data_offset as int, self.cap as int),
+      same_outside(old(st)@.bytes, final(st)@.bytes, self.data_offset as int, self.cap as int),
+      final(st)@.writable == old(st)@.writable && final(st)@.lo == old(st)@.lo,
+  { unimplemented!() }
+}
